@@ -49,6 +49,7 @@ def main():
     if m and m.group(1).strip() != "none":
         fired = m.group(1).split()
     rules = sorted(set(re.findall(r"VIOLATED (R-C\d\d-[\w-]+)", out)))
+    undecided = sorted(set(re.findall(r"^(C\d\d) undecided", out, re.M)))
     meta = {
         "id": a.id,
         "property": a.property or a.id[:3],
@@ -65,10 +66,10 @@ def main():
             "demo_exit_patched": rep["demo"]["patched_exit"],
             "demo_message": rep["demo"].get("patched_tail", [])[-1:] if rep["demo"].get("patched_tail") else [],
         },
-        "static_checks": {"tool": "tools/try_patch.py (git apply in /repo, quick checks, git checkout -- .)", "fired": fired, "rules": rules},
+        "static_checks": {"tool": "tools/try_patch.py (git apply in /repo, quick checks, git checkout -- .)", "fired": fired, "rules": rules, "undecided": undecided},
     }
     json.dump(meta, open(os.path.join(dst, "meta.json"), "w"), indent=1)
-    print(a.id, "kept; fired:", fired, rules)
+    print(a.id, "kept; fired:", fired, rules, "undecided:", undecided)
     return 0
 
 
